@@ -109,16 +109,16 @@ def run(ctx):
     # (b)+(c) every transition of the bounded scopes forced onto real goroutines
     scopes = [
         # two racing picks (fail-fast + wait-for-ready) against updatePicker's two steps, all result kinds
-        ("g1", dict(rpcs=["a", "b"], ff=["a"], canc=[], maxgen=2, kinds=ALL, flips=0), ctx.pick(1500, None)),
+        ("g1", dict(rpcs=["a", "b"], ff=["a"], canc=[], maxgen=2, kinds=ALL, flips=0), ctx.pick(1500, 12000)),
         # one wait-for-ready pick with cancellation and subchannel flips, three generations
         ("g2", dict(rpcs=["a"], ff=[], canc=["a"], maxgen=3, kinds=["ok", "notready", "nosc", "err"], flips=ctx.pick(1, 2)),
-         ctx.pick(1200, None)),
+         ctx.pick(1200, 12000)),
         # one fail-fast pick, cancellation racing with the wake-up
         ("g3", dict(rpcs=["a"], ff=["a"], canc=["a"], maxgen=2, kinds=ALL, flips=1), ctx.pick(800, None)),
     ]
     if not ctx.quick():
         scopes.append(("g4", dict(rpcs=["a", "b"], ff=["a"], canc=["b"], maxgen=2, kinds=["ok", "notready", "nosc", "err"],
-                                  flips=1), 60000))
+                                  flips=1), 12000))
     total_drift = 0
     tall = os.path.join(ctx.run, "trace-all.ndjson")
     with open(tall, "w") as fall:
@@ -137,20 +137,25 @@ def run(ctx):
             s = summary(out)
             total_drift += s["drift"]
             if s["drift"]:
-                for n in s["notes"]:
+                for n in s["notes"][:2]:
                     print("DRIFT property=C32 scope %s %s" % (name, n))
             ctx.log("replay %s: %d behaviours, drift %d, select-nondeterminism stops %d" % (name, len(behs), s["drift"], s["nondet"]))
             for b in behs:
                 ctx.count([(x["t"], x["p"], x["arg"]) for x in b], nontrivial=len(b) >= 4)
             ctx.sample({"scope": name, "schedule": [(x["t"], x["p"], x["arg"]) for x in behs[len(behs) // 2]]})
+            if not ctx.quick():
+                res = ctx.validate("PickerWrapperTrace", "PickerWrapperTrace.cfg", tpath, timeout=1500)
+                judge(ctx, res, tpath, "gated replay " + name)
+                continue
             with open(tpath) as f:
                 for ln in f:
                     if ln.startswith('{"b":'):
                         ln = '{"scope":"%s",' % name + ln[1:]
                     fall.write(ln)
-    # one TLC run judges the traces of all scopes
-    res = ctx.validate("PickerWrapperTrace", "PickerWrapperTrace.cfg", tall)
-    judge(ctx, res, tall, "gated replay")
+    if ctx.quick():
+        # one TLC run judges the traces of all scopes
+        res = ctx.validate("PickerWrapperTrace", "PickerWrapperTrace.cfg", tall)
+        judge(ctx, res, tall, "gated replay")
     ctx.cov["drift"] = total_drift
     ctx.cov["rule"] = ("behaviours = edge cover of the TLC state graph of PickerWrapper.tla for three (thorough: four) bounded "
                        "scopes (one schedule per transition, BFS prefix), replayed on real goroutines gated at verifhook "
